@@ -339,6 +339,12 @@ pub fn run_kind(seed: u64, profile: Profile, thorough: bool, kind: u8, max_event
 
 /// Same seed with fixed / dynamic / mixed arrays must be observationally equal.
 pub fn run_twins(seed: u64, profile: Profile, thorough: bool, max_events: Option<usize>, cov: &mut Coverage) -> Option<Violation> {
+    // accessor level first (cheap): seeded update / query sequences on the four array implementations side by side
+    for j in 0..6u64 {
+        if let Some(v) = crate::mon::c13seq::run_sequence(seed.wrapping_mul(8).wrapping_add(j), cov) {
+            return Some(v);
+        }
+    }
     let a = run_kind(seed, profile, thorough, 0, max_events);
     for kind in [1u8, 2u8] {
         let b = run_kind(seed, profile, thorough, kind, max_events);
